@@ -442,6 +442,9 @@ impl DrawExecutor {
     }
 
     fn draw_polyline(&mut self, parameters: &[i32]) {
+        if parameters.len() < 2 {
+            return;
+        }
         let mut x = parameters[0];
         let mut y = parameters[1];
         let mask = self.line_type.get_mask();
@@ -458,6 +461,9 @@ impl DrawExecutor {
 
     fn fill_poly(&mut self, points: &[i32]) {
         let max_vertices = 512;
+        if points.len() < 2 {
+            return;
+        }
 
         let mut i = 3;
         let mut y_max = points[1];
